@@ -8,8 +8,9 @@
 (* how it behaves: return / raise kind k / return a Deferred that fires or *)
 (* fails after a delay / never fires, plus one optional side effect (leave *)
 (* a delayed call behind, log an error to Twisted, drop a failed           *)
-(* Deferred), the runner's timeout T and the instant at which the reactor  *)
-(* is asked to stop (interrupt).                                           *)
+(* Deferred; a mismatching expectThat; log errors of two types and flush   *)
+(* one type / all of them with flush_logged_errors), the runner's timeout  *)
+(* T and the instant at which the reactor is asked to stop (interrupt).    *)
 (*                                                                         *)
 (* MECHANISM: the callback chain of _run_deferred as actions (Begin a      *)
 (* unit, Advance virtual time to the next reactor event: the awaited       *)
@@ -65,10 +66,11 @@ VARIABLES
     logged, unhandled,       \* errors logged to Twisted / failed Deferreds dropped, not yet accounted
     timedOut, interrupted, stopCalled,
     setupOk,
+    forced,                  \* a failed expectThat set force_failure: raised when the chain ends
     rlog                     \* result events
 
 vars == <<beh, side, ncl, T, intr, variant, pc, now, cur, todo, waitUntil, ran, raised, failsSeen, pending,
-          logged, unhandled, timedOut, interrupted, stopCalled, setupOk, rlog>>
+          logged, unhandled, timedOut, interrupted, stopCalled, setupOk, forced, rlog>>
 
 AllUnits == {"setUp", "body", "tearDown", "c1", "c2"}
 UnitsOf(n) == {"setUp", "body", "tearDown"} \cup {CleanupIds[i] : i \in 1..n}
@@ -86,6 +88,7 @@ Init ==
     /\ ran = <<>> /\ raised = <<>> /\ failsSeen = FALSE
     /\ pending = {} /\ logged = 0 /\ unhandled = 0
     /\ timedOut = FALSE /\ interrupted = FALSE /\ stopCalled = FALSE /\ setupOk = FALSE
+    /\ forced = FALSE
     /\ rlog = <<>>
 
 Scen == <<beh, side, ncl, T, intr, variant>>
@@ -97,7 +100,7 @@ StartTest ==
     /\ pending' = {[at |-> T, what |-> "timeout"]} \cup (IF intr = NoIntr THEN {} ELSE {[at |-> intr, what |-> "intr"]})
     /\ todo' = <<"setUp">> /\ pc' = "next"
     /\ UNCHANGED <<Scen, now, cur, waitUntil, ran, raised, failsSeen, logged, unhandled, timedOut, interrupted,
-                   stopCalled, setupOk>>
+                   stopCalled, setupOk, forced>>
 
 \* the chain calls the next unit (only once the previous unit's Deferred has fired: Sequenced)
 Begin ==
@@ -109,7 +112,10 @@ Begin ==
        \* the run or during the spinner's post-run reactor iterations), schedules another far-future call
        /\ pending' = IF side.unit = u /\ side.what \in {"leave", "chain0"}
                      THEN pending \cup {[at |-> now + FarFuture, what |-> "junk"]} ELSE pending
-       /\ logged' = IF side.unit = u /\ side.what = "logerr" THEN logged + 1 ELSE logged
+       \* "logflush": errors of two types are logged and flush_logged_errors(<one type>) is called: one stays;
+       \* "flushall": the same two errors, then flush_logged_errors(): none stays
+       /\ logged' = IF side.unit = u /\ side.what \in {"logerr", "logflush"} THEN logged + 1 ELSE logged
+       /\ forced' = (forced \/ (side.unit = u /\ side.what = "expect"))
        /\ unhandled' = IF side.unit = u /\ side.what = "drop" THEN unhandled + 1 ELSE unhandled
        /\ waitUntil' = IF beh[u].b \in {"ret", "raise"} THEN now
                        ELSE IF beh[u].b = "never" THEN Never ELSE now + beh[u].d
@@ -137,7 +143,7 @@ Complete ==
        /\ setupOk' = IF u = "setUp" THEN ok ELSE setupOk
        /\ todo' = Follow(u, ok) \o todo
     /\ pc' = "next"
-    /\ UNCHANGED <<Scen, cur, waitUntil, ran, pending, logged, unhandled, timedOut, interrupted, stopCalled, rlog>>
+    /\ UNCHANGED <<Scen, cur, waitUntil, ran, pending, logged, unhandled, timedOut, interrupted, stopCalled, forced, rlog>>
 
 \* Spinner._timed_out: TimeoutError, reactor crashed, the rest of the chain never runs
 TimeoutFires ==
@@ -148,7 +154,7 @@ TimeoutFires ==
     /\ pending' = pending \ {[at |-> EarliestOther, what |-> "timeout"]}
     /\ raised' = Append(raised, "err")          \* _log_user_exception(TimeoutError)
     /\ pc' = "post"
-    /\ UNCHANGED <<Scen, cur, todo, waitUntil, ran, failsSeen, logged, unhandled, interrupted, stopCalled, setupOk, rlog>>
+    /\ UNCHANGED <<Scen, cur, todo, waitUntil, ran, failsSeen, logged, unhandled, interrupted, stopCalled, setupOk, forced, rlog>>
 
 \* reactor.stop() requested (patched to crash): NoResultError, result.stop()
 InterruptFires ==
@@ -159,15 +165,17 @@ InterruptFires ==
     /\ pending' = pending \ {[at |-> EarliestOther, what |-> "intr"]}
     /\ raised' = Append(raised, "err")          \* NoResultError through _got_user_exception
     /\ pc' = "post"
-    /\ UNCHANGED <<Scen, cur, todo, waitUntil, ran, failsSeen, logged, unhandled, timedOut, setupOk, rlog>>
+    /\ UNCHANGED <<Scen, cur, todo, waitUntil, ran, failsSeen, logged, unhandled, timedOut, setupOk, forced, rlog>>
 
 \* the chain is exhausted: the Deferred of _run_deferred fires, the spinner cancels its timeout and stops
 ChainDone ==
     /\ pc = "next" /\ todo = <<>>
     /\ pending' = {c \in pending : c.what # "timeout"}
+    \* the last link of the chain: a failed expectation fails the test now that every stage is over
+    /\ raised' = IF forced THEN Append(raised, "fail") ELSE raised
     /\ pc' = "post"
-    /\ UNCHANGED <<Scen, now, cur, todo, waitUntil, ran, raised, failsSeen, logged, unhandled, timedOut, interrupted,
-                   stopCalled, setupOk, rlog>>
+    /\ UNCHANGED <<Scen, now, cur, todo, waitUntil, ran, failsSeen, logged, unhandled, timedOut, interrupted,
+                   stopCalled, setupOk, forced, rlog>>
 
 \* _run_core after the spinner returned: logged errors, unhandled failures, junk left in the reactor
 RECURSIVE Errs(_)
@@ -177,7 +185,7 @@ Account ==
     /\ raised' = raised \o Errs(logged) \o Errs(unhandled) \o (IF pending # {} THEN <<"err">> ELSE <<>>)
     /\ pending' = {} /\ logged' = 0 /\ unhandled' = 0
     /\ pc' = "report"
-    /\ UNCHANGED <<Scen, now, cur, todo, waitUntil, ran, failsSeen, timedOut, interrupted, stopCalled, setupOk, rlog>>
+    /\ UNCHANGED <<Scen, now, cur, todo, waitUntil, ran, failsSeen, timedOut, interrupted, stopCalled, setupOk, forced, rlog>>
 
 Outcomes == {"success", "failure", "error", "skip", "xfail", "uxsuccess"}
 \* C14 fixes the outcome only as far as: success iff nothing went wrong; timeout / interrupt => error
@@ -191,14 +199,14 @@ Report ==
     /\ \E o \in AllowedOutcomes(raised, timedOut, interrupted) : rlog' = Append(rlog, o)
     /\ pc' = "stop"
     /\ UNCHANGED <<Scen, now, cur, todo, waitUntil, ran, raised, failsSeen, pending, logged, unhandled, timedOut,
-                   interrupted, stopCalled, setupOk>>
+                   interrupted, stopCalled, setupOk, forced>>
 
 StopTest ==
     /\ pc = "stop"
     /\ rlog' = Append(rlog, "stopTest")
     /\ pc' = "done"
     /\ UNCHANGED <<Scen, now, cur, todo, waitUntil, ran, raised, failsSeen, pending, logged, unhandled, timedOut,
-                   interrupted, stopCalled, setupOk>>
+                   interrupted, stopCalled, setupOk, forced>>
 
 Next == StartTest \/ Begin \/ Complete \/ TimeoutFires \/ InterruptFires \/ ChainDone \/ Account \/ Report \/ StopTest
 Spec == Init /\ [][Next]_vars
@@ -220,7 +228,8 @@ Finished == \A i \in DOMAIN Plan : beh[Plan[i]].b # "never" /\ EndAt(i) < Deadli
 CleanRun ==
     /\ Finished
     /\ \A i \in DOMAIN Plan : beh[Plan[i]].b \in {"ret", "dfire"}
-    /\ side.what = None \/ side.unit \notin {Plan[i] : i \in DOMAIN Plan}
+    \* "flushall" leaves nothing behind; every other side effect (incl. a failed expectation, C07) spoils the run
+    /\ side.what \in {None, "flushall"} \/ side.unit \notin {Plan[i] : i \in DOMAIN Plan}
     /\ intr = NoIntr                       \* a pending stop request is itself a delayed call left behind
 
 -----------------------------------------------------------------------------
